@@ -14,7 +14,8 @@ from ..oracle import brief
 from .c09 import parse_rate
 from .c05 import tie_amount
 
-RULE = ("money x rate, rate x money, money / rate for matching and "
+RULE = ("(incl. results a hair beside a multiple or half multiple of the "
+        "target fraction) money x rate, rate x money, money / rate for matching and "
         "non-matching currencies under all 8 default rounding modes "
         "(amounts at ties of the target fraction); compound money-per-X "
         "types (Money/Mass, Money/Length, Money/Duration) x 4 currencies x 3 "
@@ -66,8 +67,32 @@ def money_sub(chk, rng, w, mode):
                          "e": ["c", XR, [U(a), ["i", 1], U(b),
                                          num(rate_amt)]]}
         x = (2 * rng.randint(-300, 300) + 1) * w.quantum_of(src)
+    near = False
+    if rng.random() < 0.2 and dst is not None:
+        # a conversion factor so small that whole steps of the source
+        # fraction move the exact result by less than 0.0000005: amounts
+        # chosen to land just beside a multiple (or an odd half multiple) of
+        # the target fraction -- where rounding to some fixed number of
+        # decimals first and to the currency's fraction afterwards differs
+        # from rounding the exact product once
+        near = True
+        if form == "div":
+            um = 1
+            rate_amt = F(rng.randint(2 * 10 ** 6, 10 ** 7),
+                         10 ** rng.randint(0, 1))
+            f = um / rate_amt
+        else:
+            um = 1000
+            rate_amt = F(rng.randint(1, 4000), 10 ** 6)
+            f = rate_amt / um
+        steps_body[0] = {"id": "x", "k": "x",
+                         "e": ["c", XR, [U(a), ["i", um], U(b),
+                                         num(rate_amt)]]}
+        qs, qd_ = w.quantum_of(src), w.quantum_of(dst)
+        g = rng.randint(-400, 400) * qd_ / 2
+        x = round(g / f / qs) * qs + rng.choice([-2, -1, 0, 1, 2]) * qs
     prov = "constructed"
-    r_prov = rng.random()
+    r_prov = rng.random() if not near else 1.0
     if r_prov < 0.15:
         # a rate that is the product of two rates through a third currency
         prov = "product"
@@ -102,6 +127,14 @@ def money_sub(chk, rng, w, mode):
         chk.case(("money", form, a, b, str(rate_amt), um, str(x), mode))
         chk.count("money|" + form)
         chk.count("rate object|" + prov)
+        if near:
+            ex_ = val(m) * (xr["um"] / xr["ta"] if form == "div"
+                            else xr["ta"] / xr["um"])
+            qn = w.quantum_of(dst) / 2
+            off = abs(ex_ - round(ex_ / qn) * qn)
+            if 0 < off < F(5, 10 ** 7):
+                chk.count("results within 0.0000005 of a (half) multiple of "
+                          "the target fraction, not on it")
         wit = dict(info=info, obs=obs, steps=steps)
         if dst is None:
             if not is_exc(r, "ValueError") or is_exc(r, "QuantityError") \
@@ -386,7 +419,9 @@ def run(chk, R, tier, seed):
               "price|no-money", "price|order mul", "price|order rmul",
               "price|order div", "worlds", "rate object|inverted",
               "rate object|product",
-              "price|target unit declared after a refusal"):
+              "price|target unit declared after a refusal",
+              "results within 0.0000005 of a (half) multiple of "
+              "the target fraction, not on it"):
         chk.require(c)
     for mode in RM.MODES:
         chk.require("mode|%s|tie" % mode)
